@@ -72,6 +72,25 @@ def unit_probe(rng, acc):
         raise core.Violation(PROP, 'equal-weight-values', 'equal-weight optimiser gave %s for scale %r over %d assets'
                              % (vals[:3], scale, k), {})
     acc.count('C19:optimiser_checks')
+    # the same optimiser objects asked again with the SAME dict object whose keys/values were changed in place
+    fixed, equal = FixedWeightPortfolioOptimiser(), EqualWeightPortfolioOptimiser(scale=scale)
+    d = dict(w)
+    for step in range(3):
+        out_f = fixed(base, initial_weights=d)
+        out_e = equal(base, initial_weights=d)
+        if dict(out_f) != dict(d):
+            raise core.Violation(PROP, 'fixed-weight-optimiser/reuse', 'fixed-weight optimiser returned %s for %s on call %d of the '
+                                 'same object' % (out_f, d, step + 1), {})
+        if set(out_e) != set(d) or any(abs(v - scale / len(d)) > 1e-12 * scale for v in out_e.values()):
+            raise core.Violation(PROP, 'equal-weight/reuse', 'equal-weight optimiser returned %s for keys %s on call %d of the same '
+                                 'object (the dict was changed in place between calls)' % (out_e, sorted(d), step + 1), {})
+        # change the dict in place: drop one key (if possible), add a new one, change a value
+        if len(d) > 1 and rng.random() < 0.7:
+            d.pop(rng.choice(sorted(d)))
+        d['EQ:N%d_%d' % (step, rng.randint(0, 99))] = rng.uniform(-1, 1)
+        k0 = rng.choice(sorted(d))
+        d[k0] = d[k0] + 0.25
+    acc.count('C19:optimiser_reuse_checks')
 
 
 def plan(tier, seed):
